@@ -12,6 +12,7 @@ import collections
 import hashlib
 import os
 import random
+import shutil
 import subprocess
 from concurrent.futures import ThreadPoolExecutor
 
@@ -279,7 +280,7 @@ def gen_start(rnd, idx, tier):
 def scenarios(seed, tier, prop):
     rnd = random.Random(seed * 1000003 + 13)
     if tier == "quick":
-        n_dir, n_rnd, n_start = 140, 260, 40
+        n_dir, n_rnd, n_start = 280, 600, 80
     else:
         n_dir, n_rnd, n_start = 6000, 24000, 2000
     out = []
@@ -451,6 +452,10 @@ def run_all(hbin, scens, workers=None, chunk=12):
     idx = list(enumerate(scens))
     chunks = [idx[i:i + chunk] for i in range(0, len(idx), chunk)]
     with env.scratch("verif-mx-") as wd:
+        # a private copy: the build cache is pruned whenever the tree hash changes (another check may rebuild meanwhile)
+        own = os.path.join(wd, "h_ft")
+        shutil.copy2(hbin, own)
+        hbin = own
         with ThreadPoolExecutor(max_workers=workers) as ex:
             futs = [ex.submit(run_chunk, hbin, wd, c) for c in chunks]
             out = []
@@ -731,8 +736,12 @@ def classify(o, prop):
     if prop == "C13":
         if v.get("exclusion"):
             what = ("two Starts on one id inside the critical section" if o.scen.mode == "start" else "two holders of one key")
-            obs.append(("C13", "exclusion", "%s: Mx.checkExclusion fails at caller event %d (log line %d)" % (what, v["exclusion"][0], v["exclusion"][1])))
-        if v.get("proviso") and _within_active_phase(o, v["proviso"][1]):
+            where = "line %d of the derived section log" if o.scen.mode == "start" else "log line %d"
+            obs.append(("C13", "exclusion", "%s: Mx.checkExclusion fails at caller event %d (%s)" % (what, v["exclusion"][0], where % v["exclusion"][1])))
+        # a held entry deleted by the clean-up counts as a failure of its own only when it is the first thing that
+        # goes wrong: after a non-conforming manager event (say a lost wake-up) somebody may wait for ever, and that
+        # entry does go stale
+        if v.get("proviso") and _within_active_phase(o, v["proviso"][1]) and not (v.get("trace") and v["trace"][0] < v["proviso"][0]):
             obs.append(("C13", "purged-while-held", "the clean-up deleted an entry with locks > 0 although every hold is shorter than the staleness timeout "
                         "(manager event %d, log line %d)" % v["proviso"]))
     if v.get("trace"):
@@ -799,6 +808,13 @@ def check(prop, tier, seed, replay=None):
     if hbin is None:
         return rep.finish()
     lean_ok = lean_part(rep, prop)
+    if lean_ok:
+        # the default lake target is the library; the executable with `driver mx` is a target of its own
+        ok, out, _ = env.lake_build(["driver"])
+        if not ok:
+            lean_ok = False
+            p = write_replay(prop, 906, ["lake build driver failed: the executable checkers cannot be run"], "\n".join(out.strip().split("\n")[-40:]) + "\n", ext="txt")
+            rep.violation(p, "lake build driver failed; no log can be checked against the model", no_input=True)
     if not lean_ok or not os.path.exists(env.driver_path()):
         rep.cov.update({"evaluations": 0, "distinct_nontrivial": 0, "rule": "none: the Lean driver does not build", "samples": [],
                         "traces_validated_against_impl": 0})
@@ -811,7 +827,8 @@ def check(prop, tier, seed, replay=None):
         scens = scenarios(seed, tier, prop)
     outs = run_all(hbin, scens)
     if recorded:
-        # the recorded log of the failing run is judged again, whatever the scheduler does today
+        # the recorded log of the failing run is judged again for the reader (it is a fact about the tree it was
+        # recorded on, so it does not enter today's verdict: that comes from running the script again)
         sc0 = scens[0] if scens else Scenario("replay", "replay", [], mode="lock")
         o = Outcome(Scenario("recorded", "replay", sc0.lines, mode=sc0.mode, timing=sc0.timing))
         o.log = recorded
@@ -824,9 +841,10 @@ def check(prop, tier, seed, replay=None):
                 o.verdicts = run_driver([lp])[0]
                 if any(w[0] == "end" for w in o.tail):
                     analyse(o)
+                obs, conf = classify(o, prop)
+                rep.say("recorded log: " + ("; ".join(x[2] for x in obs[:3] + [("", "", c[1]) for c in conf[:1]]) or "nothing wrong for %s" % prop))
             except Exception as e:
-                o.status, o.error = "infra", str(e)
-        outs.append(o)
+                rep.say("recorded log could not be judged: %s" % e)
 
     infra = [o for o in outs if o.status != "ok"]
     good = [o for o in outs if o.status == "ok"]
@@ -867,7 +885,9 @@ def check(prop, tier, seed, replay=None):
     rep.assumptions = list(ASSUMPTIONS)
 
     # discipline failures mean the generator broke the client contract: not a verdict about the package
-    disc = [o for o in good if o.verdicts.get("discipline") and o.scen.mode == "lock"]
+    # (after two holders of one key the monitor's holder map is meaningless: only failures before that count)
+    disc = [o for o in good if o.verdicts.get("discipline") and o.scen.mode == "lock"
+            and not (o.verdicts.get("exclusion") and o.verdicts["exclusion"][0] <= o.verdicts["discipline"][0])]
     rep.cov["client_discipline_errors"] = len(disc)
 
     observed = []
@@ -882,7 +902,8 @@ def check(prop, tier, seed, replay=None):
     rep.cov["conformance_failures_without_observable_failure"] = len(conform)
     counter = 0
     if observed:
-        observed.sort(key=lambda x: (len(x[0].scen.script), len(x[0].log)))
+        # schedules on one P replay (almost) deterministically: prefer them as replays, shortest first
+        observed.sort(key=lambda x: ("procs 1" not in x[0].scen.lines, len(x[0].scen.script), len(x[0].log)))
         seen = set()
         for o, obs in observed:
             kind = obs[0][1]
@@ -895,11 +916,11 @@ def check(prop, tier, seed, replay=None):
                 if o.verdicts.get(name):
                     hdr.append("driver mx: %s fail at event %d, log line %d" % ((name,) + tuple(o.verdicts[name])))
             hdr.append("%d of %d scenarios show an observable failure" % (len(observed), len(outs)))
-            hdr.append("re-run: bin/check %s --replay <this file>  (the script is run 24 times, the recorded log below is judged again)" % prop)
+            hdr.append("re-run: bin/check %s --replay <this file>  (the script is run 24 times; the recorded log below is shown again but does not enter the verdict)" % prop)
             p = write_replay(prop, counter, hdr, replay_text(o, []), ext="script")
             rep.violation(p, "%s: %s (scenario %s)" % (obs[0][1], obs[0][2], o.scen.name))
     elif conform:
-        conform.sort(key=lambda x: (len(x[0].scen.script), len(x[0].log)))
+        conform.sort(key=lambda x: ("procs 1" not in x[0].scen.lines, len(x[0].scen.script), len(x[0].log)))
         o, conf = conform[0]
         counter += 1
         hdr = ["the manager's logged behaviour is no longer a behaviour of the Lean model (scenario %s, family %s); no caller-observable failure of %s was found in %d scenarios"
